@@ -24,20 +24,22 @@ class Listener:
         self.by_node = {}
         for e in self.events:
             self.by_node.setdefault(e.node, []).append(e)
-        self.fi = {f["name"]: i for i, f in enumerate(self.prog.adts[SERVER]["variants"][0]["fields"])} if SERVER in self.prog.adts else {}
+        # role -> path inside the Server value (analyzer/world.py: server_layout): roles are Config's public field names
+        # plus socket / clients / largest_block_size
+        self.fi = dict(world.server_layout())
         heads = [k for k in eng.loop_invariants if k[0] == eng.entry_frame]
         self.head = heads[0] if heads else None
 
     def field_ref(self, v, name):
         """value v is a reference to Server field `name` of the listener's self"""
-        i = self.fi.get(name)
-        return isinstance(v, tuple) and v and v[0] == "r" and v[1] == self.self_root and tuple(v[2][:1]) == (i,)
+        pth = self.fi.get(name)
+        return pth is not None and isinstance(v, tuple) and bool(v) and v[0] == "r" and v[1] == self.self_root and tuple(v[2][:len(pth)]) == tuple(pth)
 
     def field_sym(self, name):
-        i = self.fi.get(name)
-        if i is None:
+        pth = self.fi.get(name)
+        if pth is None:
             return None
-        return self.eng.sym_ids.get(("init", self.self_root, (i,)))
+        return self.eng.sym_ids.get(("init", self.self_root, tuple(pth)))
 
     def fs_events(self, region_prefix=None):
         out = []
@@ -137,7 +139,7 @@ def buffer_monotone(world, eng, clause, why):
     fi_lbs = L.fi.get("largest_block_size")
     nwr = 0
     for (node, root, path, old, new, cx) in eng.mem_writes:
-        if root == L.self_root and tuple(path) == (fi_lbs,):
+        if root == L.self_root and fi_lbs is not None and tuple(path) == tuple(fi_lbs):
             nwr += 1
             ok = old[0] == "i" and new[0] == "i" and cx.entails(lin.le(old[1], new[1]))
             clause.ob(ok, "receive-buffer-shrinks in %s" % short(frame_fn(node[0])),
